@@ -24,6 +24,7 @@ class SelectPoller(Poller):
         self.__descrsWrite = set()
         self.__descrsError = set()
         self.__descrToCallbacks = {}
+        self.__changed = set()
 
     def subscribe(self, descr, callback, eventMask):
         self.unsubscribe(descr)
@@ -40,6 +41,7 @@ class SelectPoller(Poller):
         self.__descrsWrite.discard(descr)
         self.__descrsError.discard(descr)
         self.__descrToCallbacks.pop(descr, None)
+        self.__changed.add(descr)
 
     def poll(self, timeout):
         rlist, wlist, xlist = select.select(list(self.__descrsRead),
@@ -51,7 +53,12 @@ class SelectPoller(Poller):
         rlist = set(rlist)
         wlist = set(wlist)
         xlist = set(xlist)
+        self.__changed.clear()
         for descr in allDescrs:
+            # A callback handled earlier in this batch may have closed this descriptor (and its
+            # number may already belong to a new socket): what select reported is stale then.
+            if descr in self.__changed:
+                continue
             event = 0
             if descr in rlist:
                 event |= POLL_EVENT_TYPE.READ
@@ -66,8 +73,10 @@ class PollPoller(Poller):
     def __init__(self):
         self.__poll = select.poll()
         self.__descrToCallbacks = {}
+        self.__changed = set()
 
     def subscribe(self, descr, callback, eventMask):
+        self.__changed.add(descr)
         pollEventMask = 0
         if eventMask & POLL_EVENT_TYPE.READ:
             pollEventMask |= select.POLLIN
@@ -79,6 +88,8 @@ class PollPoller(Poller):
         self.__poll.register(descr, pollEventMask)
 
     def unsubscribe(self, descr):
+        self.__changed.add(descr)
+        self.__descrToCallbacks.pop(descr, None)
         try:
             self.__poll.unregister(descr)
         except KeyError:
@@ -86,7 +97,11 @@ class PollPoller(Poller):
 
     def poll(self, timeout):
         events = self.__poll.poll(timeout * 1000)
+        self.__changed.clear()
         for descr, event in events:
+            # see SelectPoller.poll
+            if descr in self.__changed:
+                continue
             eventMask = 0
             if event & select.POLLIN:
                 eventMask |= POLL_EVENT_TYPE.READ
